@@ -161,7 +161,7 @@ def _owner(m, fn):
 
 # ---------------------------------------------------------------------------------------
 # R3: one index space
-POS, POSNODE, POSMAP, RAW, OTHER = "pos", "posnode", "posmap", "raw", "other"
+POS, POSNODE, POSMAP, IDXMAP, RAW, OTHER = "pos", "posnode", "posmap", "idxmap", "raw", "other"
 
 
 class IndexSpace:
@@ -189,13 +189,15 @@ class IndexSpace:
             if fn.split(".")[-1] == "Node" and e.args:
                 a = self.cls_of(e.args[0], env)
                 return POSNODE if a == POS else (RAW if a == RAW else OTHER)
-            if isinstance(e.func, ast.Attribute) and e.func.attr == "get" and self.cls_of(e.func.value, env) == POSMAP:
-                return POSNODE
+            if isinstance(e.func, ast.Attribute) and e.func.attr == "get" and self.cls_of(e.func.value, env) in (POSMAP, IDXMAP) and len(e.args) == 1:
+                return POSNODE if self.cls_of(e.func.value, env) == POSMAP else POS
             return OTHER
         if isinstance(e, ast.Subscript):
             b = self.cls_of(e.value, env)
             if b == POSMAP:
                 return POSNODE
+            if b == IDXMAP:
+                return POS
             return OTHER
         if isinstance(e, ast.Attribute):
             if e.attr == "idx":
@@ -210,7 +212,7 @@ class IndexSpace:
             env2 = dict(env)
             self.bind_comp(e.generators, env2)
             v = self.cls_of(e.value, env2)
-            return POSMAP if v in (POSNODE, POS) else OTHER
+            return POSMAP if v == POSNODE else (IDXMAP if v == POS else OTHER)
         if isinstance(e, ast.Tuple):
             cs = [self.cls_of(x, env) for x in e.elts]
             return RAW if RAW in cs else (POS if POS in cs else OTHER)
@@ -455,7 +457,8 @@ def r4_r5_r7_load(ctx, R4="C02.R4", R5="C02.R5", R7="C02.R7") -> None:
     seen_sides = set()
     for p in eps:
         for c in [e.value for e in p.effects if isinstance(e, ast.Expr) and isinstance(e.value, ast.Call) and call_name(e.value) == "add_link"]:
-            for side, a in zip(("source", "target"), c.args):
+            from ..rulekit import unold_ast
+            for side, a in zip(("source", "target"), [unold_ast(x) for x in c.args]):
                 if not (isinstance(a, ast.Call) and call_name(a) in ("out", "inp") and a.args):
                     ctx.broken("Hugr._from_serial: add_link arguments are not <node>.out(...)/<node>.inp(...)")
                 if side in seen_sides:
